@@ -42,7 +42,7 @@ def needed_order(kind, deg, facet=False, d=None):
             return deg + 1
         if kind == 'hex':
             return deg + 2
-        return deg + 2          # wedge: triangle part total degree <= deg + 2, z part <= deg + 1
+        return deg              # wedge: the generated prisms are affine images of the reference prism (extruded, never jiggled)
     if kind in ('tri', 'quad', 'tet', 'line'):
         return deg
     return deg + 1              # planar quadrilateral faces of hexahedra
@@ -55,7 +55,7 @@ def case_functional(draw, tier):
     desc = draw(gm.mesh(max_cells=12 if big else 8, max_cells_3d=6 if big else 3, order2=True, curved=False))
     kind = gm.mesh_kind(desc)
     d = gm.DIM[kind]
-    maxdeg = (6 if big else 4) if d < 3 else (4 if big else 3)
+    maxdeg = (6 if big else 4) if d < 3 else (4 if (big or kind == 'wedge') else 3)
     alpha = draw(st.lists(st.integers(0, maxdeg), min_size=d, max_size=d).filter(lambda a: sum(a) <= maxdeg))
     nc = len(desc['t'][0])
     return dict(mesh=desc, alpha=alpha, where=draw(st.sampled_from(['cells', 'cellsub', 'subdomain', 'bnd', 'facetsub', 'interior'])),
@@ -129,7 +129,10 @@ def body_functional(c, ctx):
             basis = CellBasis(m, e, intorder=order)
         else:
             cells = np.array(list(dict.fromkeys(int(k) % m.nelements for k in c['picks'])), dtype=np.int32)    # any order
-            if where == 'cellsub':
+            if where == 'cellsub' and c['extra'] == 2:
+                # the subset basis derived from a subset basis with another element
+                basis = CellBasis(m, m.elem(), intorder=order, elements=cells).with_element(e)
+            elif where == 'cellsub':
                 basis = CellBasis(m, e, intorder=order, elements=cells)
             elif c['extra'] == 1 and len(cells) >= 2:
                 # the region given as a union of two named, OVERLAPPING pieces (tuple / list / set of names)
